@@ -91,22 +91,32 @@ def INDEX(arr, row_num=DEFAULT, column_num=DEFAULT, area_num=DEFAULT):
         column_num = utils.parse_number(column_num)
         if isinstance(column_num, error.XLError):
             return column_num
+    def pick(seq, position):
+        # 1-based position; seq[position - 1] alone would wrap around for position <= 0
+        if position < 1 or position > len(seq):
+            raise IndexError(position)
+        return seq[position - 1]
+
     try:
         if row_num is DEFAULT:
+            if column_num == 0:
+                return arr
             if bidimensional:
-                return [row[column_num - 1] for row in arr]
+                return [pick(row, column_num) for row in arr]
             else:
-                return arr[column_num - 1]
+                return pick(arr, column_num)
         if column_num is DEFAULT:
-            return arr[row_num - 1]
+            if row_num == 0:
+                return arr
+            return pick(arr, row_num)
         if row_num == 0 and column_num == 0:
             return arr
         if row_num == 0:
-            return [row[column_num - 1] for row in arr]
+            return [pick(row, column_num) for row in arr]
         if column_num == 0:
-            return arr[row_num - 1]
+            return pick(arr, row_num)
         if not bidimensional and column_num == 1:
-            return arr[row_num -1]
-        return arr[row_num - 1][column_num - 1]
+            return pick(arr, row_num)
+        return pick(pick(arr, row_num), column_num)
     except (IndexError, TypeError):
         return error.REF
